@@ -130,6 +130,14 @@ def cases(tier, seed):
                 if rng.random() < 0.5:
                     ka = [rng.choice(grades[ga]), rng.choice(grades[gb])]
                 out.append(dict(kind='swap-history', cfg=cfg, op=op, ka=ka, kb=kb, route=rng.choice(['plain', 'plain', 'wrapper'])))
+    # --- algebras derived from one another with dataclasses.replace (the pinned suite derives a graded algebra
+    #     this way): operations on the derived algebra must not influence the original, and vice versa
+    for _ in range(24 if tier == 'quick' else 150):
+        base, change = rng.choice([(dict(p=2), dict(signature=[1, -1])), (dict(p=2), dict(signature=[0, 1])), (dict(p=3), dict(signature=[1, -1, 1])),
+                                   (dict(p=1, q=1), dict(signature=[-1, 1])), (dict(p=2), dict(cse=False)), (dict(p=2, r=1), dict(signature=[1, 1, 0]))])
+        d = sum(base.values())
+        out.append(dict(kind='derived-algebra', cfg=base, change=change, op=rng.choice(BIN_OPS[:11] + UN_OPS[:7]),
+                        ka=rng.sample(range(2 ** d), 2), kb=rng.sample(range(2 ** d), 2), wrapper=rng.choice(['identity', 'closure', None])))
     # --- operator sweeps: EVERY operator on the same operands, then every one again (two operators must
     #     never share a generated-function name)
     for route in ('wrapper', 'register'):
@@ -211,6 +219,8 @@ def run_case(desc, V):
         return _run_names(desc, V)
     if desc['kind'] == 'swap-history':
         return _run_swap(desc, V)
+    if desc['kind'] == 'derived-algebra':
+        return _run_derived(desc, V)
     if desc['kind'] == 'flaky-wrapper':
         return _run_flaky(desc, V)
     return _run_mixed(desc, V)
@@ -245,6 +255,45 @@ def _run_names(desc, V):
             r = _call(alg, 'wrapper', op, ar, args, {})
             want = _fresh_result(desc['cfg'], op, ar, args)
             claims += mv_eq_claims(f'{name}:{A}/{B}#{j}', r, coeffs(want), fkey='name-classes|shared-name-not-equivalent')
+    return claims
+
+
+def _run_derived(desc, V):
+    import dataclasses
+    from kingdon.multivector import MultiVector
+    cfg = dict(desc['cfg'])
+    if desc.get('wrapper'):
+        cfg['wrapper'] = desc['wrapper']
+    base = make_alg(cfg)
+    change = dict(desc['change'])
+    der = dataclasses.replace(base, **change)
+    # what a freshly CONSTRUCTED algebra with the derived configuration computes
+    fresh_cfg = {k: v for k, v in desc['cfg'].items()}
+    if 'signature' in change:
+        fresh_cfg = dict(signature=change['signature'], start_index=base.start_index)
+    else:
+        fresh_cfg.update(change)
+    op = desc['op']
+    ar = 2 if op in BIN_OPS else 1
+    claims = []
+    for i, alg in enumerate((base, der, base, der)):
+        a = mv(alg, V, f'a{i}', desc['ka'])
+        b = mv(alg, V, f'b{i}', desc['kb'])
+        args = [a, b] if ar == 2 else [a]
+        fcfg = desc['cfg'] if alg is base else fresh_cfg
+        try:
+            want = _fresh_result(fcfg, op, ar, args)
+        except ZeroDivisionError:
+            want = None
+        try:
+            r = _call(alg, 'plain', op, ar, args, {})
+        except ZeroDivisionError:
+            r = None
+        if (r is None) != (want is None):
+            claims.append(Fail(f'raise-mismatch[{i}]', 'raise behaviour differs from a freshly constructed algebra', fkey='derived-algebra|raise'))
+        elif r is not None:
+            claims += mv_eq_claims(f'call[{i}]', r, coeffs(want), fkey=f'derived-algebra|{"wrapper" if desc.get("wrapper") else "plain"}')
+    claims.append(Eq('reached', 1, 1))
     return claims
 
 
